@@ -92,6 +92,12 @@ func (e *Env) mk(t string, typ types.Type, st *State) SVal {
 	return SVal{t: t, typ: typ, sort: e.vc.d.sortOf(typ), st: st}
 }
 
+// mkLoad: a value read from a memory cell; its type-range facts are recorded as side facts.
+func (e *Env) mkLoad(t string, typ types.Type) SVal {
+	e.typeSide(t, typ)
+	return SVal{t: t, typ: typ, sort: e.vc.d.sortOf(typ)}
+}
+
 func (e *Env) stOf(v SVal) *State {
 	if v.st != nil {
 		return v.st
@@ -216,7 +222,7 @@ func (e *Env) evalIdent(name string) SVal {
 			if l.kind == lStruct {
 				return e.mk(l.key, types.NewPointer(v.cellOf), nil)
 			}
-			return e.mk(vc.load(e.cur, l), v.cellOf, nil)
+			return e.mkLoad(vc.load(e.cur, l), v.cellOf)
 		}
 		return v
 	}
@@ -284,7 +290,7 @@ func (e *Env) evalIdent(name string) SVal {
 				if l.kind == lStruct {
 					return e.mk(l.key, fv.Type(), nil)
 				}
-				return e.mk(vc.load(e.cur, l), T, nil)
+				return e.mkLoad(vc.load(e.cur, l), T)
 			}
 		}
 		// named results
@@ -418,9 +424,9 @@ func (e *Env) localByName(name string) (SVal, bool) {
 				return e.mk(l.key, alloc.Type(), nil), true
 			}
 			if _, isArr := T.Underlying().(*types.Array); isArr {
-				return e.mk(vc.load(e.cur, l), T, nil), true
+				return e.mkLoad(vc.load(e.cur, l), T), true
 			}
-			return e.mk(vc.load(e.cur, l), T, nil), true
+			return e.mkLoad(vc.load(e.cur, l), T), true
 		}
 	}
 	// 3. the reaching definition of the source variable: candidates are the phis named after the
